@@ -5,8 +5,12 @@
     kind 2: the lines of real benchtab text tables (observation only);
     kind 3: per real table: the abstract table, ToText's bytes, ToCSV's records and warnings;
     kind 4: a whole run: per table its table-key header lines and abstract table,
-            and every record and the warning stream Tables.ToCSV wrote. *)
-From Perf Require Import Base.Bytes Base.Sx Model.Runes Model.TextTab Model.KeyHeader Model.LayoutObs Model.Render.
+            and every record and the warning stream Tables.ToCSV wrote;
+    kind 5: a whole run: the names of the table-key fields, per table the table key
+            the in-process Tables report and the abstract table; the bytes
+            Tables.ToText wrote, every spreadsheet row Tables.ToCSV wrote and its
+            warning stream (the header lines are derived, not given). *)
+From Perf Require Import Base.Bytes Base.Sx Model.Runes Model.TextTab Model.KeyHeader Model.LayoutObs Model.Render Model.RenderRun.
 
 Definition as_align (s : sx) : option align :=
   match s with SZ 0 => Some ALeft | SZ 1 => Some ACenter | SZ 2 => Some ARight | _ => None end.
@@ -83,7 +87,8 @@ Inductive case :=
 | KKeys (nf : nat) (keys : list key) (nlev : nat) (levels : list (list hnode))
 | KBench (tables : list (nat * list bytes))        (* header line count, table lines *)
 | KTextCsv (tables : list tc_table)                (* abstract table + real text + real CSV *)
-| KCsvTables (tabs : list (list bytes * rtable)) (recs : list (list bytes)) (warn : bytes).
+| KCsvTables (tabs : list (list bytes * rtable)) (recs : list (list bytes)) (warn : bytes)
+| KRun (fields : list bytes) (tabs : list (list bytes * rtable)) (text : bytes) (recs : list (list bytes)) (warn : bytes).
 
 Definition decode (s : sx) : option case :=
   match s with
@@ -100,6 +105,10 @@ Definition decode (s : sx) : option case :=
   | SL [SZ 4; tabs; recs; SB warn] =>
       do tabs <- as_list (as_pair (as_list as_b) as_rtable) tabs; do recs <- as_list (as_list as_b) recs;
       Some (KCsvTables tabs recs warn)
+  | SL [SZ 5; fields; tabs; SB text; recs; SB warn] =>
+      do fields <- as_list as_b fields;
+      do tabs <- as_list (as_pair (as_list as_b) as_rtable) tabs; do recs <- as_list (as_list as_b) recs;
+      Some (KRun fields tabs text recs warn)
   | _ => None
   end.
 
@@ -218,6 +227,28 @@ Definition csv_tables_obs_ok (recs : list (list bytes)) (warn : bytes) : bool :=
   | None => false
   end.
 
+(** Tables.ToText against the model: per table the blank separator (not before
+    the first), the model's header lines, then - as in [tc_corr] - a layout of
+    the model's texttab cells and the model's footnote lines; nothing else *)
+Fixpoint run_text_corr (first : bool) (mt : list (list bytes * rtable)) (lines : list bytes) : bool :=
+  match mt with
+  | [] => is_nilb lines
+  | (hs, t) :: r =>
+      let pre := (if first then [] else [[]]) ++ hs in
+      let lines1 := skipn (length pre) lines in
+      let '(ops, wl) := text_model t in
+      list_eqb beq (firstn (length pre) lines) pre &&
+      match build ops with
+      | Some tb =>
+          let ntab := if is_nilb (t_cells tb) then 0%nat else S (last_row (t_cells tb)) in
+          let foot := text_footer wl in
+          layout_obs_ok (t_cols tb) (t_cells tb) (firstn ntab lines1)
+          && list_eqb beq (firstn (length foot) (skipn ntab lines1)) foot
+          && run_text_corr false r (skipn (ntab + length foot) lines1)
+      | None => false
+      end
+  end.
+
 Definition corr_ok (c : case) : bool :=
   match c with
   | KTable ops perm obs =>
@@ -240,6 +271,14 @@ Definition corr_ok (c : case) : bool :=
   | KCsvTables tabs recs warn =>
       let '(mrecs, mws) := csv_tables_model tabs in
       list_eqb (list_eqb beq) mrecs recs && list_eqb beq (map wline_bytes mws) (split_nl [] warn)
+  | KRun fields tabs text recs warn =>
+      let mt := run_tabs fields tabs in
+      let '(mrecs, mws) := csv_tables_model mt in
+      list_eqb (list_eqb beq) mrecs recs && list_eqb beq (map wline_bytes mws) (split_nl [] warn)
+      && match split_lines [] text with
+         | Some lines => run_text_corr true mt lines
+         | None => false
+         end
   end.
 
 Definition prop_ok (c : case) : bool :=
@@ -263,6 +302,7 @@ Definition prop_ok (c : case) : bool :=
   | KBench tabs => forallb bench_table_ok tabs
   | KTextCsv tabs => forallb (fun t => text_csv_ok (tc_start t) (tc_text t) (tc_recs t) (tc_warn t)) tabs
   | KCsvTables _ recs warn => csv_tables_obs_ok recs warn
+  | KRun fields tabs text recs warn => run_ok fields tabs text recs warn
   end.
 
 Definition run_case (s : sx) : N :=
